@@ -509,7 +509,7 @@ impl Deb822 {
             }
             None => {
                 ensure_trailing_newline(&self.0);
-                self.0.children().count()
+                self.0.children_with_tokens().count()
             }
         };
         self.0
